@@ -323,7 +323,9 @@ def coq_case(case, out):
 class C01(Prop):
     pid = "C01"
     theorems = ["C01_enumeration_complete", "C01_nan_enumeration_complete", "C01_first_viable_is_argmax",
-                "C01_carve_optimal"]
+                "C01_kept_grouping_is_optimal", "C01_kept_nan_placement_is_optimal",
+                "C01_dropped_iff_no_viable_candidate", "C01_viable_means",
+                "C01_checker_predicate_holds_on_model"]
     rule = ("one real carver fit per case (BinaryCarver with both measures / ContinuousCarver with "
             "integer-valued y) on a single quantitative, ordinal or categorical feature: 1-8 base "
             "modalities, 40-600 rows, NaN share 0-30%, max_n_mod 2-6, min_freq_mod default or exactly "
